@@ -17,8 +17,11 @@ Theorems here are about the machinery that executes:
 * `srdhm_eq_floor`, `rdivpot_eq_cases`, `npuScaleTfl_eq_mbqm`, `npuScaleNatural_eq_mbqm64` — the "TFL" and
   "NATURAL" OFM rounding modes of the executor are the requantisation functions of the reference kernels,
   for every accumulator, multiplier and shift;
-* `conv_stripe_eq` — the executor's convolution accumulator on a stripe with stripe-local padding equals the
-  reference accumulator on the whole tensor when the receptive-field equations of C10 hold.
+* `conv_stripe_eq`, `dw_stripe_eq`, `pool_stripe_max_eq`, `pool_stripe_avg_eq` — the executor's convolution / depthwise /
+  pooling accumulators on a stripe with stripe-local padding equal the reference accumulators on the whole tensor when the
+  receptive-field equations of C10 hold;
+* `convValues_get`, `gatherList_get`, `conv_block_values`, `scatter_readback` — the executor's list/array formulation of a
+  convolution block: reads at `fmAddr`, per-element accumulators at the NHWC index, and what is scattered reads back.
 -/
 namespace VelaVerif.Props.C01
 open VelaVerif.Requant VelaVerif.TfliteRef VelaVerif.Lemmas.Sem VelaVerif.Lemmas.Pool VelaVerif.Lemmas.Exec VelaVerif.Tiling VelaVerif.NpuSem VelaVerif.Footprint VelaVerif.Decode
@@ -385,10 +388,142 @@ theorem conv_block_values (m : Mem) (fm : FM) (l : List Int) (hg : gatherList m 
   rw [convAcc_congr_inrange fm.height fm.width fm.depth _ (memFm m fm)
     (fun y x c h1 h2 h3 => gather_getD m fm l hg y x c h1 h2 h3)]
 
+
+/-- **Write side: what `scatter` stores is what a later read returns.** If the scatter of the OFM values succeeds and the
+    bytes of element `(y, x, c)` are not shared with any other element of the box (`hdisj`: the strides in the registers
+    separate the elements — C02/C12's subject), then reading that element from the resulting memory at
+    `fmAddr fm y x c` gives the stored value (modulo `2^(8·bytes)`, sign-reinterpreted: `wrapElem`), whatever order the
+    other elements were written in. With `wrapElem_id`: the value itself when it is in the range of the OFM type (which the
+    activation clamp guarantees). -/
+theorem scatter_readback (m m' : Mem) (fm : FM) (vals : Array Int) (s : Nat)
+    (hslot : regionSlot fm.region = some s) (hsz : s < m.regions.size)
+    (h : scatter m fm vals = .ok m') (y x c : Nat) (hy : y < fm.height) (hx : x < fm.width) (hc : c < fm.depth)
+    (hdisj : ∀ y' x' c', y' < fm.height → x' < fm.width → c' < fm.depth → (y', x', c') ≠ (y, x, c) →
+      fmAddr fm y x c + fm.elemBytes ≤ fmAddr fm y' x' c' ∨ fmAddr fm y' x' c' + fm.elemBytes ≤ fmAddr fm y x c) :
+    m'.readElem fm.region (fmAddr fm y x c) fm.elemBytes fm.signed =
+      .ok (wrapElem fm.elemBytes fm.signed (vals.getD ((y * fm.width + x) * fm.depth + c) 0)) := by
+  unfold scatter Mem.modifyRegion at h
+  rw [hslot] at h
+  simp only [] at h
+  generalize hB : m.regions.getD s ByteArray.empty = B at h
+  split at h
+  · cases h
+  · rename_i hs0
+    cases hb : scatterBytes fm vals B with
+    | error e => rw [hb] at h; cases h
+    | ok b' =>
+      rw [hb] at h
+      cases h
+      unfold scatterBytes at hb
+      have hrb := writes_readback fm.region fm.elemBytes (fun (e : Nat × Nat × Nat) => fmAddr fm e.1 e.2.1 e.2.2)
+        (fun (e : Nat × Nat × Nat) => vals.getD ((e.1 * fm.width + e.2.1) * fm.depth + e.2.2) 0)
+        (coords3 fm.height fm.width fm.depth) B b' hb ((y * fm.width + x) * fm.depth + c) (y, x, c)
+        (coords3_get _ _ _ y x c hy hx hc)
+        (by
+          intro j e' hj hne
+          have ⟨h1, h2, h3, h4⟩ := coords3_get_inv _ _ _ j e' hj
+          apply hdisj e'.1 e'.2.1 e'.2.2 h1 h2 h3
+          intro heq
+          apply hne
+          rw [h4]
+          have e1 : e'.1 = y := by have := congrArg (·.1) heq; simpa using this
+          have e2 : e'.2.1 = x := by have := congrArg (·.2.1) heq; simpa using this
+          have e3 : e'.2.2 = c := by have := congrArg (·.2.2) heq; simpa using this
+          rw [e1, e2, e3])
+      obtain ⟨hin, hbytes⟩ := hrb
+      have hget : ({ regions := (m.regions.setIfInBounds s ByteArray.empty).setIfInBounds s b' } : Mem).regions.getD s ByteArray.empty = b' := by
+        simp [Array.getD_eq_getD_getElem?, hsz]
+      unfold Mem.readElem
+      rw [readUnsigned_ok _ fm.region s _ _ hslot (by rw [hget]; exact hin), hget]
+      have hu : (vals.getD ((y * fm.width + x) * fm.depth + c) 0 % (2 : Int) ^ (8 * fm.elemBytes)).toNat < 256 ^ fm.elemBytes := by
+        rw [← pow_8n]
+        have hp : (0 : Int) < (2 : Int) ^ (8 * fm.elemBytes) := VelaVerif.Lemmas.Sem.two_pow_pos _
+        have h1 := Int.emod_lt_of_pos (vals.getD ((y * fm.width + x) * fm.depth + c) 0) hp
+        have h0 := Int.emod_nonneg (vals.getD ((y * fm.width + x) * fm.depth + c) 0) (by omega : (2 : Int) ^ (8 * fm.elemBytes) ≠ 0)
+        have hc : ((2 : Nat) ^ (8 * fm.elemBytes) : Nat) = ((2 : Int) ^ (8 * fm.elemBytes)) := by simp
+        omega
+      have e : (List.range fm.elemBytes).foldl (fun v i => v + (b'.get! (fmAddr fm y x c + i)).toNat * 256 ^ i) 0 =
+          (vals.getD ((y * fm.width + x) * fm.depth + c) 0 % (2 : Int) ^ (8 * fm.elemBytes)).toNat := by
+        rw [← read_setBytes b' (fmAddr fm y x c) _ fm.elemBytes hu hin]
+        have gen : ∀ (l : List Nat), (∀ i ∈ l, i < fm.elemBytes) → ∀ init,
+            l.foldl (fun v i => v + (b'.get! (fmAddr fm y x c + i)).toNat * 256 ^ i) init =
+            l.foldl (fun v i => v + ((setBytes b' (fmAddr fm y x c) (vals.getD ((y * fm.width + x) * fm.depth + c) 0 % (2 : Int) ^ (8 * fm.elemBytes)).toNat fm.elemBytes).get! (fmAddr fm y x c + i)).toNat * 256 ^ i) init := by
+          intro l
+          induction l with
+          | nil => intro _ init; rfl
+          | cons a as ih =>
+            intro hl init
+            simp only [List.foldl]
+            rw [hbytes a (hl a List.mem_cons_self), setBytes_get_in _ _ _ _ a (hl a List.mem_cons_self) hin]
+            exact ih (fun i hi => hl i (List.mem_cons_of_mem a hi)) _
+        exact gen _ (fun i hi => List.mem_range.mp hi) 0
+      rw [e]
+      rfl
+
+
+
+/-- a value in the range of the element type is stored faithfully -/
+theorem wrapElem_id (n : Nat) (signed : Bool) (v : Int) (hn : 1 ≤ n)
+    (hr : if signed then -((2 : Int) ^ (8 * n - 1)) ≤ v ∧ v < (2 : Int) ^ (8 * n - 1) else 0 ≤ v ∧ v < (2 : Int) ^ (8 * n)) :
+    wrapElem n signed v = v := by
+  unfold wrapElem toSigned
+  have hp : (2 : Int) ^ (8 * n) = 2 * (2 : Int) ^ (8 * n - 1) := by
+    have : 8 * n = (8 * n - 1) + 1 := by omega
+    rw [this, VelaVerif.Lemmas.Sem.two_pow_succ]; simp
+  have hpn : ((2 : Nat) ^ (8 * n - 1) : Nat) = ((2 : Int) ^ (8 * n - 1)) := by simp
+  have hpos := VelaVerif.Lemmas.Sem.two_pow_pos (8 * n - 1)
+  generalize (2 : Int) ^ (8 * n - 1) = P at *
+  cases signed with
+  | true =>
+    simp only [if_true] at hr ⊢
+    rw [hp]
+    by_cases hv : 0 ≤ v
+    · have e : v % (2 * P) = v := Int.emod_eq_of_lt hv (by omega)
+      rw [e]
+      have : ¬ (v.toNat ≥ 2 ^ (8 * n - 1)) := by omega
+      simp only [this, if_false]
+      omega
+    · have e : v % (2 * P) = v + 2 * P := by
+        have h1 : (v + 2 * P) % (2 * P) = v + 2 * P := Int.emod_eq_of_lt (by omega) (by omega)
+        rw [← h1]
+        exact (Int.add_emod_right v (2 * P)).symm
+      rw [e]
+      have : (v + 2 * P).toNat ≥ 2 ^ (8 * n - 1) := by omega
+      simp only [this, if_true]
+      omega
+  | false =>
+    simp only [Bool.false_eq_true, if_false] at hr ⊢
+    rw [hp] at hr ⊢
+    have e : v % (2 * P) = v := Int.emod_eq_of_lt hr.1 hr.2
+    rw [e]
+    omega
+
 /-- non-vacuity: a 2x2x1 block with a 1x1 kernel of weight 3, scale record (bias 1, scale 2^30, shift 30): index 3 holds
     `(ifm(1,1,0) - zp) * 3 + 1` -/
 example :
     (convValues false 2 2 1 (fun y x _ => (y * 2 + x : Nat)) 1 1 (fun _ _ _ _ => 3) 1 1 1 1 0 0 1 0 .tfl
       #[{ bias := 1, scale := 1073741824, shift := 30 }] 2 2 1)[(1 * 2 + 1) * 1 + 0]? = some ((3 - 1) * 3 + 1) := by decide
+
+/-- non-vacuity of `scatter_readback`: a 2x2x1 int16 OFM at base 2 with row stride 6 in a 16-byte scratch region: the
+    scatter succeeds, the elements are separated, and element (1, 1, 0) reads back as the stored -32768 -/
+example : (match scatter { regions := #[ByteArray.empty, ByteArray.mk (Array.replicate 16 0), ByteArray.empty, ByteArray.empty] }
+      { region := 1, base := [2, 0, 0, 0], height0 := 2, height1 := 2, width0 := 2, strideX := 2, strideY := 6, strideC := 0,
+        height := 2, width := 2, depth := 1, elemBytes := 2, signed := true, nhcwb16 := false, zeroPoint := 0 }
+      #[-3, 300, 7, -32768] with | .ok _ => true | .error _ => false) = true := by decide
+
+example (m' : Mem)
+    (h : scatter { regions := #[ByteArray.empty, ByteArray.mk (Array.replicate 16 0), ByteArray.empty, ByteArray.empty] }
+      { region := 1, base := [2, 0, 0, 0], height0 := 2, height1 := 2, width0 := 2, strideX := 2, strideY := 6, strideC := 0,
+        height := 2, width := 2, depth := 1, elemBytes := 2, signed := true, nhcwb16 := false, zeroPoint := 0 }
+      #[-3, 300, 7, -32768] = .ok m') :
+    m'.readElem 1 10 2 true = .ok (-32768) := by
+  have := scatter_readback _ m' _ #[-3, 300, 7, -32768] 1 (by decide) (by decide) h 1 1 0 (by decide) (by decide) (by decide)
+    (by intro y' x' c' hy hx hc hne
+        have h1 : y' = 0 ∨ y' = 1 := by have : y' < 2 := hy; omega
+        have h2 : x' = 0 ∨ x' = 1 := by have : x' < 2 := hx; omega
+        have h3 : c' = 0 := by have : c' < 1 := hc; omega
+        subst h3
+        rcases h1 with rfl | rfl <;> rcases h2 with rfl | rfl <;> first | (exact absurd rfl hne) | decide)
+  exact this
 
 end VelaVerif.Props.C01
